@@ -205,7 +205,9 @@ class ShuffleReduce(Expr):
         # Make sure we have dataframe-like data to shuffle
         if split_by_index:
             if self.frame.ndim == 1:
-                chunked = ResetIndex(self.frame, drop=False, name=self.frame.name)
+                # an unnamed Series travels under the placeholder name (renamed
+                # back below): a column labelled None does not survive the shuffle
+                chunked = ResetIndex(self.frame, drop=False, name=columns[0])
             else:
                 chunked = ResetIndex(self.frame, drop=False)
             if split_by == [None]:
